@@ -1,27 +1,614 @@
-//! C05 — stub, not built yet.
+//! C05 STAM JSON round trip preserves the whole model.
 
+use crate::content::*;
 use crate::engine::*;
+use crate::hist::*;
+use crate::model::Val;
+use crate::observe::*;
 use proptest::prelude::*;
+use serde::{Deserialize, Serialize};
+use stam::*;
+use std::path::PathBuf;
+use std::sync::atomic::{AtomicU64, Ordering};
 
 pub struct C05;
 
+#[derive(Clone, Debug, Serialize, Deserialize, PartialEq)]
+pub enum Mode {
+    /// everything in one document, via to_json_string / from_str
+    Inline,
+    /// one document, via to_file / from_file
+    InlineFile,
+    /// resources (as .txt or .json) and datasets kept in stand-off files via @include
+    Standoff { json_resources: bool },
+    /// the first `cut` annotations (and all resources/datasets) live in an included sub-store
+    Substore { cut: u16, standoff: bool },
+}
+
+#[derive(Clone, Debug, Serialize, Deserialize)]
+pub struct Case {
+    pub hist: History,
+    pub compact: bool,
+    pub mode: Mode,
+}
+
+static COUNTER: AtomicU64 = AtomicU64::new(0);
+
+pub struct TempDir(pub PathBuf);
+impl TempDir {
+    pub fn new(tag: &str) -> TempDir {
+        let base = std::env::var("VERIF_TMP").unwrap_or_else(|_| "/tmp".to_string());
+        let n = COUNTER.fetch_add(1, Ordering::Relaxed);
+        let p = PathBuf::from(base).join(format!("stamverif-{}-{}-{}", std::process::id(), tag, n));
+        let _ = std::fs::create_dir_all(&p);
+        TempDir(p)
+    }
+    pub fn path(&self, name: &str) -> String {
+        self.0.join(name).to_string_lossy().to_string()
+    }
+}
+impl Drop for TempDir {
+    fn drop(&mut self) {
+        let _ = std::fs::remove_dir_all(&self.0);
+    }
+}
+
+fn value_text(v: &Val) -> String {
+    format!("{:?}", v)
+}
+
+/// run the history; None if the machine diverged from the model (other properties' business)
+pub fn final_store(h: &History, out: &mut Outcome) -> Option<Machine> {
+    let mut m = Machine::new(h.hostile);
+    for op in &h.ops {
+        let s = m.apply(op);
+        if s.skipped.is_some() {
+            continue;
+        }
+        if s.panic.is_some() || s.result.is_err() || s.mismatch.is_some() {
+            out.label("stopped_at_foreign_divergence");
+            return None;
+        }
+        if op.is_removal() {
+            out.label("has_gap");
+        }
+    }
+    Some(m)
+}
+
+fn classify(obs: &Obs, out: &mut Outcome) {
+    let mut nt = false;
+    for a in &obs.anns {
+        if a.id.is_none() {
+            out.label("idless_annotation");
+            nt = true;
+        }
+        for l in a.target.leaves() {
+            match l {
+                crate::model::MSel::Key(..) => {
+                    out.label("key_selector");
+                    nt = true;
+                }
+                crate::model::MSel::Data(..) => {
+                    out.label("data_selector");
+                    nt = true;
+                }
+                crate::model::MSel::Text { mode, .. } if *mode != (false, false) => {
+                    out.label("endaligned_offset");
+                    nt = true;
+                }
+                crate::model::MSel::Ann { text: Some((_, _, _, mode)), .. } => {
+                    out.label("relative_offset");
+                    if *mode != (false, false) {
+                        out.label("endaligned_offset");
+                    }
+                    nt = true;
+                }
+                _ => {}
+            }
+        }
+        if a.ranged {
+            out.label("range_compressed");
+        }
+        if a.target.is_complex() {
+            out.label("complex_selector");
+        }
+    }
+    for s in &obs.sets {
+        if s.data.iter().any(|d| d.id.is_none()) {
+            out.label("idless_data");
+            nt = true;
+        }
+        if s.data.iter().any(|d| matches!(d.value, Val::List(_))) {
+            out.label("list_value");
+        }
+        if s.data.iter().any(|d| matches!(d.value, Val::Dt(_))) {
+            out.label("datetime_value");
+        }
+    }
+    if out.labels.iter().any(|l| l == "has_gap") {
+        nt = true;
+    }
+    out.nontrivial = nt;
+}
+
+fn json_config(compact: bool) -> Config {
+    Config::default().with_dataformat(DataFormat::Json { compact })
+}
+
+fn report(out: &mut Outcome, stage: &str, diffs: Vec<(String, String, String)>) {
+    for (facet, sig, detail) in diffs {
+        out.fail(&facet, format!("{}|{}", sig, stage), format!("[{}] {}", stage, detail));
+    }
+}
+
 impl Property for C05 {
-    type Case = u8;
+    type Case = Case;
     fn id(&self) -> &'static str {
         "C05"
     }
     fn rule(&self) -> String {
-        "not built yet".into()
+        "case = final store of a C01 history (so with gaps, id-less items, every selector kind, end-aligned and relative offsets, all value types) x pretty/compact x {one document through to_json_string/from_str, one file through to_file/from_file, resources and datasets moved to @include stand-off files (.txt / .json), one level of included sub-store}. Oracle: the reload succeeds; the handle-free content snapshot (ordered live items, references as ordinals, offsets with alignment, typed values, texts) of the reloaded store equals the original's; the reloaded store is self-consistent (C01 consistency battery); writing the reloaded store again gives byte-identical output (for stand-off: every file). Non-trivial = the store has a gap, an id-less item, a key/data selector or an end-aligned/relative offset; distinct = distinct case JSON.".into()
     }
-    fn cases(&self, _tier: Tier) -> u64 {
-        0
+    fn assumptions(&self) -> Vec<String> {
+        vec![
+            "Multi/Composite sub-selector order is not significant".into(),
+            "stand-off and sub-store documents are produced by rewriting the inline JSON (moving members to @include files); no programmatic shortcut of the library is assumed".into(),
+            "one history in five uses the hostile id/key/value alphabet (quotes, backslashes, control characters); file names derive from ordinals, not ids".into(),
+        ]
     }
-    fn strategy(&self, _tier: Tier) -> BoxedStrategy<u8> {
-        any::<u8>().boxed()
+    fn cases(&self, tier: Tier) -> u64 {
+        tier.pick(30_000, 600_000)
     }
-    fn run(&self, _case: &u8) -> Outcome {
-        let mut o = Outcome::new();
-        o.skip("not built");
-        o
+    fn strategy(&self, tier: Tier) -> BoxedStrategy<Case> {
+        let cfg = HistCfg {
+            max_ops: tier.pick(16, 40),
+            text_max: 16,
+            removal_weight: 3,
+            protect_weight: 1,
+            complex_weight: 2,
+            ..HistCfg::default()
+        };
+        let mode = prop_oneof![
+            8 => Just(Mode::Inline),
+            1 => Just(Mode::InlineFile),
+            1 => any::<bool>().prop_map(|json_resources| Mode::Standoff { json_resources }),
+            1 => (any::<u16>(), any::<bool>()).prop_map(|(cut, standoff)| Mode::Substore { cut, standoff }),
+        ];
+        let hostile_cfg = HistCfg { hostile: true, ..cfg.clone() };
+        (prop_oneof![4 => history_strategy(cfg), 1 => history_strategy(hostile_cfg)], any::<bool>(), mode)
+            .prop_map(|(hist, compact, mode)| Case { hist, compact, mode })
+            .boxed()
+    }
+
+    fn run(&self, case: &Case) -> Outcome {
+        let mut out = Outcome::new();
+        let Some(m) = final_store(&case.hist, &mut out) else { return out };
+        let model_content = content_of_model(&m.model);
+        let store = m.store;
+        let obs = match catch(|| observe(&store)) {
+            Ok(o) => o,
+            Err(_) => {
+                out.label("stopped_at_foreign_divergence");
+                return out;
+            }
+        };
+        classify(&obs, &mut out);
+        // the expectation is what the items were built with (reference model); the store's own view of itself must
+        // agree with it except for alignment modes, which internal range compression may already have lost
+        let observed = content(&obs);
+        {
+            let d = compare(&model_content, &observed, true, &value_text);
+            if d.iter().any(|(facet, _, _)| facet != "offset.mode") {
+                out.label("stopped_at_foreign_divergence");
+                return out;
+            }
+        }
+        let mut original = model_content;
+        for (a, o) in original.anns.iter_mut().zip(observed.anns.iter()) {
+            a.ranged = o.ranged;
+        }
+        let cfg = json_config(case.compact);
+        out.label(if case.compact { "compact" } else { "pretty" });
+        // ---- serialise
+        let s1 = match catch(|| store.to_json_string(&cfg)) {
+            Ok(Ok(s)) => s,
+            Ok(Err(e)) => {
+                out.fail("write", "err", format!("to_json_string failed: {}", e));
+                return out;
+            }
+            Err(p) => {
+                out.fail("write", p.signature(), format!("to_json_string panicked at {}:{}: {}", p.file, p.line, p.msg));
+                return out;
+            }
+        };
+        match &case.mode {
+            Mode::Inline => {
+                out.label("inline");
+                let Some(store2) = load_str(&s1, case.compact, &mut out, "reload") else { return out };
+                if !compare_store(&original, &store2, &mut out, "reload") {
+                    return out;
+                }
+                match catch(|| store2.to_json_string(&cfg)) {
+                    Ok(Ok(s2)) => {
+                        out.checks += 1;
+                        if s2 != s1 {
+                            out.fail("fixpoint", first_diff_class(&s1, &s2), format!("second output differs from the first: {}", first_diff(&s1, &s2)));
+                        }
+                    }
+                    Ok(Err(e)) => out.fail("fixpoint", "write-err", format!("writing the reloaded store failed: {}", e)),
+                    Err(p) => out.fail("fixpoint", p.signature(), format!("writing the reloaded store panicked: {}", p.msg)),
+                }
+            }
+            Mode::InlineFile => {
+                out.label("inline_file");
+                let dir = TempDir::new("c05");
+                let f = dir.path("main.store.stam.json");
+                let mut store = store;
+                store.set_config(cfg.clone());
+                match catch(|| store.to_file(&f)) {
+                    Ok(Ok(())) => {}
+                    Ok(Err(e)) => {
+                        out.fail("write", "to_file-err", format!("to_file failed: {}", e));
+                        return out;
+                    }
+                    Err(p) => {
+                        out.fail("write", p.signature(), format!("to_file panicked: {}", p.msg));
+                        return out;
+                    }
+                }
+                let Some(store2) = load_file(&f, case.compact, &mut out, "reload-file") else { return out };
+                if !compare_store(&original, &store2, &mut out, "reload-file") {
+                    return out;
+                }
+                let first = std::fs::read_to_string(&f).unwrap_or_default();
+                let f2 = dir.path("second.store.stam.json");
+                let mut store2 = store2;
+                match catch(|| store2.to_file(&f2)) {
+                    Ok(Ok(())) => {
+                        let second = std::fs::read_to_string(&f2).unwrap_or_default();
+                        out.checks += 1;
+                        if first != second {
+                            out.fail("fixpoint", first_diff_class(&first, &second), format!("second file differs from the first: {}", first_diff(&first, &second)));
+                        }
+                    }
+                    Ok(Err(e)) => out.fail("fixpoint", "write-err", format!("writing the reloaded store failed: {}", e)),
+                    Err(p) => out.fail("fixpoint", p.signature(), format!("writing the reloaded store panicked: {}", p.msg)),
+                }
+            }
+            Mode::Standoff { json_resources } => {
+                out.label("standoff");
+                let dir = TempDir::new("c05");
+                let Ok(mut doc) = serde_json::from_str::<serde_json::Value>(&s1) else {
+                    out.fail("write", "not-json", "the store's JSON output is not valid JSON".to_string());
+                    return out;
+                };
+                externalise(&mut doc, &dir, *json_resources);
+                let main = dir.path("main.store.stam.json");
+                std::fs::write(&main, ordered_doc(&doc)).expect("write main");
+                let Some(store2) = load_file_include(&main, case.compact, &dir, &mut out, "reload-standoff") else { return out };
+                if !compare_store(&original, &store2, &mut out, "reload-standoff") {
+                    return out;
+                }
+                // save twice: everything must reach a fixpoint
+                let snap = |dir: &TempDir| -> Vec<(String, String)> {
+                    let mut v: Vec<(String, String)> = std::fs::read_dir(&dir.0)
+                        .map(|rd| {
+                            rd.filter_map(|e| e.ok())
+                                .map(|e| (e.file_name().to_string_lossy().to_string(), std::fs::read_to_string(e.path()).unwrap_or_default()))
+                                .collect()
+                        })
+                        .unwrap_or_default();
+                    v.sort();
+                    v
+                };
+                match catch(|| store2.save()) {
+                    Ok(Ok(())) => {}
+                    Ok(Err(e)) => {
+                        out.fail("fixpoint", "save-err|standoff", format!("save() of the reloaded stand-off store failed: {}", e));
+                        return out;
+                    }
+                    Err(p) => {
+                        out.fail("fixpoint", format!("{}|standoff", p.signature()), format!("save() panicked: {}", p.msg));
+                        return out;
+                    }
+                }
+                let files1 = snap(&dir);
+                let Some(store3) = load_file_include(&main, case.compact, &dir, &mut out, "reload-standoff-2") else { return out };
+                if !compare_store(&original, &store3, &mut out, "reload-standoff-2") {
+                    return out;
+                }
+                match catch(|| {
+                    // force rewriting by marking nothing: a plain save must not change any file
+                    store3.save()
+                }) {
+                    Ok(Ok(())) => {
+                        let files2 = snap(&dir);
+                        out.checks += 1;
+                        if files1 != files2 {
+                            let which: Vec<&String> = files1.iter().zip(files2.iter()).filter(|(a, b)| a != b).map(|(a, _)| &a.0).collect();
+                            out.fail("fixpoint", "files-differ|standoff", format!("a second save changed files {:?}", which));
+                        }
+                    }
+                    Ok(Err(e)) => out.fail("fixpoint", "save-err|standoff", format!("second save failed: {}", e)),
+                    Err(p) => out.fail("fixpoint", format!("{}|standoff", p.signature()), format!("second save panicked: {}", p.msg)),
+                }
+            }
+            Mode::Substore { cut, standoff } => {
+                out.label("substore");
+                let dir = TempDir::new("c05");
+                let Ok(doc) = serde_json::from_str::<serde_json::Value>(&s1) else {
+                    out.fail("write", "not-json", "the store's JSON output is not valid JSON".to_string());
+                    return out;
+                };
+                let n = original.anns.len();
+                let k = if n == 0 { 0 } else { pick(*cut, n + 1) };
+                // an annotation that is referenced without a public id cannot cross the file boundary
+                let crosses = original.anns.iter().enumerate().any(|(i, a)| {
+                    i >= k && a.target.anns().iter().any(|t| *t < k && original.anns[*t].id.is_none())
+                }) || obs.sets.iter().any(|s| s.id.is_none());
+                if crosses {
+                    out.skip("cross-boundary reference to an id-less annotation");
+                    return out;
+                }
+                // id-less data / keys referenced from main annotations use temporary ids: resolvable as handles stay equal
+                let mut sub = doc.clone();
+                let mut main = serde_json::json!({"@type": "AnnotationStore", "@include": "sub.store.stam.json", "resources": [], "annotationsets": []});
+                if let (Some(arr), Some(obj)) = (doc.get("annotations").and_then(|a| a.as_array()), sub.as_object_mut()) {
+                    let (first, rest) = arr.split_at(k.min(arr.len()));
+                    obj.insert("annotations".into(), serde_json::Value::Array(first.to_vec()));
+                    main["annotations"] = serde_json::Value::Array(rest.to_vec());
+                }
+                if let Some(id) = doc.get("@id") {
+                    main["@id"] = id.clone();
+                }
+                if let Some(obj) = sub.as_object_mut() {
+                    obj.insert("@id".into(), serde_json::Value::String("the-substore".into()));
+                }
+                if *standoff {
+                    externalise(&mut sub, &dir, false);
+                    out.label("substore_standoff");
+                }
+                std::fs::write(dir.path("sub.store.stam.json"), ordered_doc(&sub)).expect("write sub");
+                let mainf = dir.path("main.store.stam.json");
+                std::fs::write(&mainf, ordered_doc(&main)).expect("write main");
+                if k < n && k > 0 {
+                    out.label("substore_split");
+                }
+                let Some(store2) = load_file_include(&mainf, case.compact, &dir, &mut out, "reload-substore") else { return out };
+                if !compare_store(&original, &store2, &mut out, "reload-substore") {
+                    return out;
+                }
+                // membership: the sub-store lists exactly the first k annotations
+                let membership = catch(|| {
+                    let subs: Vec<_> = store2.substores().collect();
+                    if subs.len() != 1 {
+                        return Err(format!("{} sub-stores after loading one @include", subs.len()));
+                    }
+                    let in_sub: Vec<usize> = store2
+                        .annotations()
+                        .enumerate()
+                        .filter(|(_, a)| a.substore().is_some())
+                        .map(|(i, _)| i)
+                        .collect();
+                    let exp: Vec<usize> = (0..k).collect();
+                    if in_sub != exp {
+                        return Err(format!("annotations in the sub-store: {:?}, expected {:?}", in_sub, exp));
+                    }
+                    Ok(())
+                });
+                out.checks += 1;
+                match membership {
+                    Ok(Ok(())) => {}
+                    Ok(Err(e)) => out.fail("substore.membership", "wrong-members", e),
+                    Err(p) => out.fail("substore.membership", p.signature(), format!("inspecting sub-stores panicked: {}", p.msg)),
+                }
+                if !out.failures.is_empty() {
+                    return out;
+                }
+                match catch(|| store2.save()) {
+                    Ok(Ok(())) => {
+                        let Some(store3) = load_file_include(&mainf, case.compact, &dir, &mut out, "reload-substore-2") else { return out };
+                        compare_store(&original, &store3, &mut out, "reload-substore-2");
+                    }
+                    Ok(Err(e)) => out.fail("fixpoint", "save-err|substore", format!("save() of the reloaded store with sub-store failed: {}", e)),
+                    Err(p) => out.fail("fixpoint", format!("{}|substore", p.signature()), format!("save() panicked: {}", p.msg)),
+                }
+            }
+        }
+        out
+    }
+}
+
+/// serialise a store document with the member order the writer itself uses (the reader is a streaming
+/// one: resources and datasets must precede the annotations that refer to them)
+fn ordered_doc(doc: &serde_json::Value) -> String {
+    const ORDER: [&str; 20] = [
+        "@type", "@id", "@include", "resources", "annotationsets", "annotations", "text", "keys", "target", "set", "resource",
+        "annotation", "annotationset", "key", "offset", "selectors", "begin", "end", "value", "data",
+    ];
+    fn rec(v: &serde_json::Value, out: &mut String) {
+        match v {
+            serde_json::Value::Object(m) => {
+                out.push('{');
+                let mut first = true;
+                let mut keys: Vec<&String> = vec![];
+                for k in ORDER {
+                    if let Some((kk, _)) = m.get_key_value(k) {
+                        keys.push(kk);
+                    }
+                }
+                for k in m.keys() {
+                    if !ORDER.contains(&k.as_str()) {
+                        keys.push(k);
+                    }
+                }
+                for k in keys {
+                    if !first {
+                        out.push(',');
+                    }
+                    first = false;
+                    out.push_str(&serde_json::to_string(k).unwrap());
+                    out.push(':');
+                    rec(&m[k], out);
+                }
+                out.push('}');
+            }
+            serde_json::Value::Array(a) => {
+                out.push('[');
+                for (i, x) in a.iter().enumerate() {
+                    if i > 0 {
+                        out.push(',');
+                    }
+                    rec(x, out);
+                }
+                out.push(']');
+            }
+            other => out.push_str(&serde_json::to_string(other).unwrap()),
+        }
+    }
+    let mut out = String::new();
+    rec(doc, &mut out);
+    out
+}
+
+/// move resources and datasets of a store document into @include files
+fn externalise(doc: &mut serde_json::Value, dir: &TempDir, json_resources: bool) {
+    if let Some(arr) = doc.get_mut("resources").and_then(|r| r.as_array_mut()) {
+        for (i, r) in arr.iter_mut().enumerate() {
+            let id = r.get("@id").cloned();
+            let text = r.get("text").and_then(|t| t.as_str()).unwrap_or("").to_string();
+            if json_resources {
+                let fname = format!("r{}.resource.stam.json", i);
+                let mut inner = r.clone();
+                if let Some(o) = inner.as_object_mut() {
+                    o.remove("@include");
+                }
+                std::fs::write(dir.path(&fname), ordered_doc(&inner)).expect("write resource");
+                *r = serde_json::json!({"@type": "TextResource", "@include": fname});
+            } else {
+                let fname = format!("r{}.txt", i);
+                std::fs::write(dir.path(&fname), &text).expect("write text");
+                *r = serde_json::json!({"@type": "TextResource", "@include": fname});
+            }
+            if let Some(id) = id {
+                r["@id"] = id;
+            }
+        }
+    }
+    if let Some(arr) = doc.get_mut("annotationsets").and_then(|r| r.as_array_mut()) {
+        for (i, s) in arr.iter_mut().enumerate() {
+            let id = s.get("@id").cloned();
+            let fname = format!("s{}.dataset.stam.json", i);
+            std::fs::write(dir.path(&fname), ordered_doc(s)).expect("write dataset");
+            *s = serde_json::json!({"@type": "AnnotationDataSet", "@include": fname});
+            if let Some(id) = id {
+                s["@id"] = id;
+            }
+        }
+    }
+}
+
+fn load_str(s: &str, compact: bool, out: &mut Outcome, stage: &str) -> Option<AnnotationStore> {
+    match catch(|| AnnotationStore::from_str(s, json_config(compact))) {
+        Ok(Ok(st)) => Some(st),
+        Ok(Err(e)) => {
+            out.fail("reload_ok", format!("{}|{}", err_class(&format!("{}", e)), stage), format!("[{}] reading back the written JSON failed: {}", stage, e));
+            None
+        }
+        Err(p) => {
+            out.fail("reload_ok", format!("{}|{}", p.signature(), stage), format!("[{}] reading back the written JSON panicked at {}:{}: {}", stage, p.file, p.line, p.msg));
+            None
+        }
+    }
+}
+
+fn load_file(f: &str, compact: bool, out: &mut Outcome, stage: &str) -> Option<AnnotationStore> {
+    match catch(|| AnnotationStore::from_file(f, json_config(compact))) {
+        Ok(Ok(st)) => Some(st),
+        Ok(Err(e)) => {
+            out.fail("reload_ok", format!("{}|{}", err_class(&format!("{}", e)), stage), format!("[{}] reading back the written file failed: {}", stage, e));
+            None
+        }
+        Err(p) => {
+            out.fail("reload_ok", format!("{}|{}", p.signature(), stage), format!("[{}] reading back the written file panicked at {}:{}: {}", stage, p.file, p.line, p.msg));
+            None
+        }
+    }
+}
+
+fn load_file_include(f: &str, compact: bool, dir: &TempDir, out: &mut Outcome, stage: &str) -> Option<AnnotationStore> {
+    let cfg = json_config(compact).with_use_include(true).with_workdir(dir.0.to_string_lossy().to_string());
+    match catch(|| AnnotationStore::from_file(f, cfg)) {
+        Ok(Ok(st)) => Some(st),
+        Ok(Err(e)) => {
+            out.fail("reload_ok", format!("{}|{}", err_class(&format!("{}", e)), stage), format!("[{}] reading the document with @include members failed: {}", stage, e));
+            None
+        }
+        Err(p) => {
+            out.fail("reload_ok", format!("{}|{}", p.signature(), stage), format!("[{}] reading the document with @include members panicked at {}:{}: {}", stage, p.file, p.line, p.msg));
+            None
+        }
+    }
+}
+
+pub fn err_class(msg: &str) -> String {
+    let n = normalise_msg(msg);
+    n.chars().take(60).collect()
+}
+
+/// compare content and self-consistency; returns false when something failed
+fn compare_store(original: &Content, store2: &AnnotationStore, out: &mut Outcome, stage: &str) -> bool {
+    let obs2 = match catch(|| observe(store2)) {
+        Ok(o) => o,
+        Err(p) => {
+            out.fail("reload_ok", format!("traverse|{}|{}", p.signature(), stage), format!("[{}] traversing the reloaded store panicked at {}:{}: {}", stage, p.file, p.line, p.msg));
+            return false;
+        }
+    };
+    let reloaded = content(&obs2);
+    out.checks += 1;
+    let diffs = compare(original, &reloaded, true, &value_text);
+    let ok = diffs.is_empty();
+    report(out, stage, diffs);
+    if ok {
+        // the reloaded store must be self-consistent (indices rebuilt correctly)
+        let mut sc = crate::hcheck::StepCheck {
+            findings: vec![],
+            diverged: false,
+            obs: None,
+            checks: 0,
+        };
+        if catch(|| crate::hcheck::check_consistency(store2, &obs2, &mut sc, None)).is_ok() {
+            out.checks += sc.checks;
+            for f in sc.findings {
+                out.fail(&format!("reloaded.{}", f.failure.facet), format!("{}|{}", f.failure.signature, stage), format!("[{}] {}", stage, f.failure.detail));
+            }
+        }
+    }
+    ok && out.failures.is_empty()
+}
+
+fn first_diff(a: &str, b: &str) -> String {
+    let pos = a.bytes().zip(b.bytes()).position(|(x, y)| x != y).unwrap_or(a.len().min(b.len()));
+    let ctx = |s: &str| -> String {
+        let mut lo = pos.saturating_sub(60);
+        while !s.is_char_boundary(lo) {
+            lo -= 1;
+        }
+        let mut hi = (pos + 60).min(s.len());
+        while !s.is_char_boundary(hi) {
+            hi += 1;
+        }
+        s[lo..hi].to_string()
+    };
+    format!("at byte {}: {:?} vs {:?}", pos, ctx(a), ctx(b))
+}
+
+fn first_diff_class(a: &str, b: &str) -> String {
+    if a.len() != b.len() {
+        "length".into()
+    } else {
+        "content".into()
     }
 }
